@@ -153,7 +153,7 @@ pub fn run(rep: &mut Report, thorough: bool) {
     let ntargets = if thorough { 60 } else { 6 };
     let per_target = if thorough { 16 } else { 8 };
     for _ in 0..ntargets {
-        let cfg = TargetCfg { sentinels: rng.range(1, 5) as usize, max_spinners: 0, heartbeats: 0, sleepers: 0, exiters: 0, names: true, regions: 3, elf_files: 1, fds: 3, stack_pages_max: 3, null_sp_threads: 1 };
+        let cfg = TargetCfg { sentinels: rng.range(1, 5) as usize, max_spinners: 0, heartbeats: 0, sleepers: 0, exiters: 0, names: true, regions: 3, elf_files: 1, fds: 3, stack_pages_max: 3, null_sp_threads: 1, big_region_pages: 0 };
         let mut sc = match scen::build_target(&mut rng, &cfg) {
             Ok(s) => s,
             Err(e) => {
